@@ -29,6 +29,9 @@ theorem mgrDone_facts (σ : St) (t : Nat) (k : MK) (hk : k.isRmTokFree = false) 
 theorem isRm_of_ok {k : MK} (h : (!k.isRmTokFree) = true) : k.isRmTokFree = false := by
   cases h' : k.isRmTokFree <;> simp_all
 
+theorem ok2 {a b : Bool} (h : (!a && !b) = true) : a = false ∧ b = false := by
+  cases a <;> cases b <;> simp_all
+
 theorem mgi_run_u1 {σ : St} (t inp : Nat) (k : MK) (I : MgI σ.mgr σ.th) (hpc : (σ.th t).pc = .u1 k) :
     MgI (stepRun σ t inp).2.mgr (stepRun σ t inp).2.th := by
   rw [th_eq_upd]
@@ -99,7 +102,7 @@ theorem mgi_run_u2 {σ : St} (t inp : Nat) (k : MK) (e : Nat) (I : MgI σ.mgr σ
     MgI (stepRun σ t inp).2.mgr (stepRun σ t inp).2.th := by
   rw [th_eq_upd]
   have hok := I.ok t; rw [hpc] at hok
-  have hk := isRm_of_ok hok
+  have hk := (ok2 hok).1
   have hl := I.loc t; rw [hpc] at hl
   simp only [stepRun, hpc]
   split
@@ -109,7 +112,7 @@ theorem mgi_run_u2 {σ : St} (t inp : Nat) (k : MK) (e : Nat) (I : MgI σ.mgr σ
     exact mgi_update_P1 I p1 (lockTr_same (by rw [p2, hpc]; rfl)) (lockTr_same (by rw [p3, hpc]; rfl)) rfl rfl rfl
       I.tokle (by rw [hpc]; simp) (p4 _)
   · refine mgi_update_P1 I ?_ (lockTr_same ?_) (lockTr_same ?_) rfl rfl rfl I.tokle (by rw [hpc]; simp) ?_
-    · msimp; exact hk
+    · msimp; exact hok
     · rw [hpc]; msimp
     · rw [hpc]; msimp
     · msimp; exact hl
@@ -118,7 +121,7 @@ theorem mgi_run_u3 {σ : St} (t inp : Nat) (k : MK) (e : Nat) (I : MgI σ.mgr σ
     MgI (stepRun σ t inp).2.mgr (stepRun σ t inp).2.th := by
   rw [th_eq_upd]
   have hok := I.ok t; rw [hpc] at hok
-  have hk := isRm_of_ok hok
+  have hk := (ok2 hok).1
   have hl := I.loc t; rw [hpc] at hl
   simp only [stepRun, hpc]
   obtain ⟨hm, hp⟩ := mgrDone_facts ({ σ.flush t with tokv := upd σ.tokv (σ.hs (σ.th t).g).tok e }) t k hk
@@ -147,7 +150,7 @@ theorem mgi_run_gt2 {σ : St} (t inp : Nat) (k : MK) (I : MgI σ.mgr σ.th) (hpc
     MgI (stepRun σ t inp).2.mgr (stepRun σ t inp).2.th := by
   rw [th_eq_upd]
   have hok := I.ok t; rw [hpc] at hok
-  have hk := isRm_of_ok hok
+  have hk := (ok2 hok).1
   have hown := (I.ownM t).mp (by rw [hpc]; rfl)
   simp only [stepRun, hpc]
   obtain ⟨hm, hp⟩ := mgrDone_facts ({ σ.flush t with tokv := upd σ.tokv (σ.th t).ng σ.epoch, toks := σ.toks ++ [(σ.th t).ng], mgrOwner := none }) t k hk
